@@ -550,9 +550,9 @@ class MonitorOnlyPart:
             verdict.add("monitors:build", str(e)[-1200:], dict(stream="monitors"), found_input=False)
             return
         for scn in self.scenarios:
-            runs = [vlib.run_rt(exe, scn, "dfs", 2, 1200 if tier == "quick" else 40000, seed),
-                    vlib.run_rt(exe, scn, "random", 0, 200 if tier == "quick" else 5000, seed),
-                    vlib.run_rt(exe, scn, "pct", 3, 200 if tier == "quick" else 5000, seed + 7)]
+            runs = [vlib.run_rt(exe, scn, "dfs", 2, 1000 if tier == "quick" else 40000, seed),
+                    vlib.run_rt(exe, scn, "random", 0, 150 if tier == "quick" else 5000, seed),
+                    vlib.run_rt(exe, scn, "pct", 3, 150 if tier == "quick" else 5000, seed + 7)]
             hs = set()
             for r in runs:
                 cov["evaluations"] += r["stats"].get("executions", 0)
@@ -578,13 +578,13 @@ def run(tier, seed, replay=None):
         QueuePart(),
         SeqDiffPart(),
         AtomicPart("timerop", "scn_c07.cpp", RT_SOURCES, "timerop", SCENARIOS,
-                   quick=dict(preemptions=2, max_execs=2500), thorough=dict(preemptions=3, max_execs=60000),
-                   random_execs=(200, 5000)),
+                   quick=dict(preemptions=2, max_execs=2000), thorough=dict(preemptions=3, max_execs=60000),
+                   random_execs=(150, 5000)),
         MonitorOnlyPart(["after_three", "past_due"]),
     ]
     return run_check(
         "C07", tier, seed,
-        ["UnifexModel.Props.C07", "UnifexModel.Props.C07_Clock", "UnifexModel.Props.C07_Cancel", "UnifexModel.Props.C07_TwoCancel"],
+        ["UnifexModel.Props.C07", "UnifexModel.Props.C07_Queue", "UnifexModel.Props.C07_Clock", "UnifexModel.Props.C07_Cancel", "UnifexModel.Props.C07_TwoCancel"],
         parts,
         rule="clock: one case = one operand tuple evaluated by the compiled header and by the regenerated Lean definition (boundary grid + seeded random), "
              "non-trivial = distinct (function, result) pairs that agree; queue/seqdiff: one case = one operation sequence (all arrival orders of "
@@ -599,6 +599,6 @@ def run(tier, seed, replay=None):
                      "io_epoll/io_uring timers are not exercised (only their clock arithmetic and intrusive_heap)"],
         trusted_extra=["harness/rt (cooperative scheduler, virtual clock)", "Core/Admit.lean trace-inclusion test", "tools/cxx2lean_clock.py front end (validated differentially each run)",
                        "g++ 12 -fsanitize=thread instrumentation; ASan+UBSan for the plain harnesses"],
-        explanation="Theorems: Props/C07_Clock (all operands, about the regenerated definitions), Props/C07 part 1 (parametric queue theorems), "
+        explanation="Theorems: Props/C07_Clock (all operands, about the regenerated definitions), Props/C07 part 1 + C07_Queue (parametric queue theorems, uniqueness of the sorted stable order), "
                     "Props/C07 + C07_Cancel + C07_TwoCancel *_safe (kernel-evaluated closure per instance). Tie: translator + differential for the clock; "
                     "sequential differential for the three queue implementations; trace inclusion + independent monitors for timed_single_thread_context.")
